@@ -381,6 +381,52 @@ func genPw(t *rapid.T, label string) string {
 	return rapid.SampledFrom([]string{"", "a", "secret", "Secret", "secret ", "secre", "secret\x00", "пароль", "p@ss w0rd", "\xff\xfe"}).Draw(t, label)
 }
 
+// genPwRelated derives a WRONG password from the right one: related in a way a sloppy comparison may miss
+// (repetition, cyclic extension, truncation, rotation, reversal, one byte changed, case, padding, anagram).
+func genPwRelated(t *rapid.T, pw string, label string) string {
+	if pw == "" {
+		return rapid.SampledFrom([]string{"\x00", " ", "a"}).Draw(t, label+"_nonempty")
+	}
+	b := []byte(pw)
+	var out []byte
+	switch rapid.IntRange(0, 9).Draw(t, label+"_rel") {
+	case 0:
+		out = append(append(out, b...), b...)
+	case 1:
+		out = append(append(out, b...), b[:rapid.IntRange(1, len(b)).Draw(t, label+"_cyc")]...)
+	case 2:
+		k := rapid.IntRange(2, 4).Draw(t, label+"_rep")
+		for i := 0; i < k; i++ {
+			out = append(out, b...)
+		}
+	case 3:
+		out = append(out, b[:rapid.IntRange(0, len(b)-1).Draw(t, label+"_cut")]...)
+	case 4:
+		r := rapid.IntRange(1, len(b)).Draw(t, label+"_rot") % len(b)
+		out = append(append(out, b[r:]...), b[:r]...)
+	case 5:
+		for i := len(b) - 1; i >= 0; i-- {
+			out = append(out, b[i])
+		}
+	case 6:
+		out = append(out, b...)
+		out[rapid.SampledFrom([]int{0, len(b) - 1, len(b) / 2}).Draw(t, label+"_pos")] ^= byte(rapid.SampledFrom([]int{1, 0x20, 0x80}).Draw(t, label+"_bit"))
+	case 7:
+		out = append([]byte(rapid.SampledFrom([]string{" ", "\x00", "x"}).Draw(t, label+"_pad")), b...)
+	case 8:
+		out = append(append(out, b...), rapid.SampledFrom([]string{" ", "\x00", "x", "\n"}).Draw(t, label+"_padr")...)
+	default:
+		out = append(out, b...)
+		if len(out) > 1 {
+			out[0], out[len(out)-1] = out[len(out)-1], out[0]
+		}
+	}
+	if string(out) == pw { // a palindrome, a rotation of aaaa, ...: fall back to an extension
+		out = append(out, '!')
+	}
+	return string(out)
+}
+
 func genText(t *rapid.T, label string) string {
 	c := rapid.IntRange(0, 5).Draw(t, label+"cls")
 	switch c {
@@ -406,6 +452,11 @@ var c16Session = pbt.Register(pbt.Prop[C16Session]{
 		c := C16Session{ServerPw: genPw(t, "serverpw"), WrongID: -1}
 		if rapid.Bool().Draw(t, "same") {
 			c.ClientPw = c.ServerPw
+		} else if rapid.Bool().Draw(t, "related") {
+			c.ClientPw = genPwRelated(t, c.ServerPw, "clientpw")
+			if rapid.Bool().Draw(t, "swaproles") {
+				c.ClientPw, c.ServerPw = c.ServerPw, c.ClientPw
+			}
 		} else {
 			c.ClientPw = genPw(t, "clientpw")
 		}
@@ -498,6 +549,11 @@ var c16Login = pbt.Register(pbt.Prop[C16Login]{
 		c := C16Login{ServerPw: genPw(t, "serverpw")}
 		if rapid.Bool().Draw(t, "same") {
 			c.ClientPw = c.ServerPw
+		} else if rapid.Bool().Draw(t, "related") {
+			c.ClientPw = genPwRelated(t, c.ServerPw, "clientpw")
+			if rapid.Bool().Draw(t, "swaproles") {
+				c.ClientPw, c.ServerPw = c.ServerPw, c.ClientPw
+			}
 		} else {
 			c.ClientPw = genPw(t, "clientpw")
 		}
